@@ -40,6 +40,9 @@ def program_output(res):
     out = res["out"]
     if res["phase"] == "interp" and res["rc"] != 0:
         out = re.sub(r"^(#\d+ \S+ in <[^>]*> at unit \[[^\]]*\]|\.\.\.)\n", "", out, flags=re.M)
+    # a failed assertion names its unit, line and source text: the specification writes "@@" for them
+    # (the quoted condition may be pretty-printed over several lines)
+    out = re.sub(r"^Assertion failed at .*?^(?=Unhandled Exception: RuntimeError)", "Assertion failed at @@\n", out, flags=re.M | re.S)
     return out
 
 
@@ -146,11 +149,11 @@ def shape_flags(prog):
 class Family(object):
     """A set of abstract programs with the behaviours TLC assigned to them."""
 
-    def __init__(self, chk, progs, name, cfg="AldorSem", workers=None, timeout=900, module="AldorSem"):
+    def __init__(self, chk, progs, name, cfg="AldorSem", workers=None, timeout=900, module="AldorSem", delassert=False):
         self.chk = chk
         self.progs = {p["id"]: p for p in progs}
         self.name = name
-        exp, res = progrun.tlc_eval(progs, workers=workers, timeout=timeout, cfg=cfg, module=module)
+        exp, res = progrun.tlc_eval(progs, workers=workers, timeout=timeout, cfg=cfg, module=module, delassert=delassert)
         if res.violated and res.violated != "NoStuck":
             raise vlib.MachineryError("AldorSem: unexpected violation %s\n%s" % (res.violated, res.trace_text[:2000]))
         if res.violated == "NoStuck":
